@@ -374,6 +374,9 @@ func checkC01(c *Ctx) {
 	} else {
 		c.missing("O12 own-tags", "tally.mergeRightTags / scope.copyAndSanitizeMap")
 	}
+	// ... and its own name: names, keys and values are sanitized by their own rule's function (shared with
+	// C06 O3; one memo shared by the three rules delivers a counter under another spelling)
+	c.checkSanitizerTable("O12 sanitizer-wiring")
 }
 
 // checkDeltaShape checks shape S1 of a function that writes counter.prev.
